@@ -229,6 +229,29 @@ def run(ctx):
                               {"kind": "history", "calls": [[k2, os.path.basename(p2)] for k2, p2 in h], "step": step,
                                "files": {os.path.basename(cpath): open(cpath).read()[:600], os.path.basename(good): open(good).read()[:1200]}},
                               impl=str(canon_result(k, r))[:300], model=str(canon_result(k, ref[(k, pth)]))[:300], clause="independence from earlier reads / conversions")
+    # a conversion done step by step (read with a reader class, then ask that class for the introduction, the parameters and the
+    # amplitude blocks), with reads of other files by the other reader classes in between: the output is that of the file read
+    fa_, fb_, fc_ = pool[0], pool[1 % len(pool)], pool[2 % len(pool)]
+    shists = []
+    for cls_, others in (("GooFitChain", ["GooFitPyChain", "AmplitudeChain"]), ("GooFitPyChain", ["GooFitChain", "AmplitudeChain"]),
+                         ("GooFitChain", ["AmplitudeChain"]), ("GooFitPyChain", ["GooFitChain"])):
+        plain = [[f"read:{cls_}", fa_], [f"emit:{cls_}", fa_]]
+        mixed = [[f"read:{cls_}", fa_]] + [[f"read:{o_}", f_] for o_, f_ in zip(others, (fb_, fc_))] + [[f"emit:{cls_}", fa_]]
+        shists.append((plain, mixed))
+    with ThreadPoolExecutor(max_workers=8) as ex:
+        souts = list(ex.map(worker, [h for pair in shists for h in pair]))
+    for k_, (plain, mixed) in enumerate(shists):
+        a_, b_ = souts[2 * k_][-1], souts[2 * k_ + 1][-1]
+        res.case()
+        res.count("stepwise_conversions")
+        ca = [a_[0], sorted(a_[1])] if a_[0] == "ok" else [a_[0], str(a_[1]).split(":")[0]]
+        cb = [b_[0], sorted(b_[1])] if b_[0] == "ok" else [b_[0], str(b_[1]).split(":")[0]]
+        if ca != cb:
+            lost = [x for x in (a_[1] if a_[0] == "ok" else []) if b_[0] == "ok" and x not in b_[1]][:3]
+            res.violation("the output lines a reader class gives for the file it read change when other reader classes read other files in between",
+                          {"kind": "history", "calls": [[k2, os.path.basename(p2)] for k2, p2 in mixed], "files": {os.path.basename(p2): open(p2).read()[:800] for _, p2 in mixed}},
+                          impl=lost or str(cb)[:300], model="the lines after " + str([[k2, os.path.basename(p2)] for k2, p2 in plain]),
+                          clause="independence from earlier reads / conversions")
     # hash seeds: same canonical output whatever the seed; exactly the same text under the same seed
     seeds = list(range(4)) if tier == "quick" else list(range(32))
     # a file with three spline resonances and the K-matrix family: several multi-line declarations whose order could follow the seed
